@@ -23,6 +23,7 @@ EVID = os.path.join(ROOT, "evidence")
 REPLAYS = os.path.join(ROOT, "replays")
 BIN = os.path.join(HARNESS, "target", "release")
 KDRV = os.path.join(BIN, "kdrv")
+KRDRV = os.path.join(BIN, "krdrv")
 KESTREL = os.path.join(BIN, "kestrel")
 FFILIB = os.path.join(BIN, "libkestrel_ffi.so")
 NCPU = os.cpu_count() or 4
@@ -59,15 +60,40 @@ def build_harness():
         env = dict(os.environ)
         env["CARGO_NET_OFFLINE"] = "true"
         p = subprocess.run(
-            ["cargo", "build", "--release", "--offline", "--quiet"],
+            ["cargo", "build", "--release", "--offline", "--quiet", "-p", "driver", "-p", "clishim", "-p", "ffishim"],
             cwd=HARNESS, env=env, stdout=subprocess.PIPE, stderr=subprocess.STDOUT, text=True)
         if p.returncode != 0:
             # A tree that no longer compiles is not something a property check can judge.
             raise ToolError("harness build failed:\n" + p.stdout[-4000:])
+        # the second driver binary links the tool's PRIVATE keyring code; when a refactoring of those private interfaces
+        # breaks it, only the checks that need it fail (with a tool error), the others still run
+        p2 = subprocess.run(["cargo", "build", "--release", "--offline", "--quiet", "-p", "krdriver"],
+                            cwd=HARNESS, env=env, stdout=subprocess.PIPE, stderr=subprocess.STDOUT, text=True)
+        marker = os.path.join(WORK, ".krdrv_failed")
+        if p2.returncode != 0:
+            with open(marker, "w") as f:
+                f.write(p2.stdout[-3000:])
+            if os.path.exists(KRDRV):
+                os.remove(KRDRV)
+        elif os.path.exists(marker):
+            os.remove(marker)
     for f in (KDRV, KESTREL, FFILIB):
         if not os.path.exists(f):
             raise ToolError("missing build product " + f)
     return time.time() - t0
+
+
+def krdrv():
+    """Path of the driver binary that includes the tool's private keyring code; a tool error when it did not build."""
+    if not os.path.exists(KRDRV):
+        why = ""
+        try:
+            why = open(os.path.join(WORK, ".krdrv_failed")).read()
+        except OSError:
+            pass
+        raise ToolError("the harness part that compiles the tool's private keyring code (krdrv) does not build against this tree; "
+                        "checks that need it cannot judge it:\n" + why[-1500:])
+    return KRDRV
 
 
 # --------------------------------------------------------------------------
@@ -307,8 +333,9 @@ def run_driver(args, stdin_text=None, timeout=1800, env=None, check=True):
     e = dict(os.environ)
     if env:
         e.update({k: str(v) for k, v in env.items()})
+    exe = krdrv() if args and args[0] in ("kr", "fuzz") else KDRV
     try:
-        p = subprocess.run([KDRV] + args, input=stdin_text, stdout=subprocess.PIPE,
+        p = subprocess.run([exe] + args, input=stdin_text, stdout=subprocess.PIPE,
                            stderr=subprocess.PIPE, text=True, timeout=timeout, env=e)
     except subprocess.TimeoutExpired:
         raise ToolError("driver timed out: kdrv " + " ".join(args))
